@@ -170,4 +170,106 @@ theorem msrReg_end_to_end (imm : BitVec 64) (p : Nat) (o1 : Reg) (wf1 : GpWellFo
   simp only [hfull, Bool.not_false, Bool.true_and, describes, Form.matchesTemplate, t, hops, matchOps, m0, m1]
   simp
 
+/-! ### SYS, MSR (immediate) and AT / DC / IC / TLBI: where the operation fields go - all values -/
+
+theorem sys_arch_fields (op1 crn crm op2 rt : BitVec 32)
+    (h1 : op1.ult 8#32 = true) (h2 : crn.ult 16#32 = true) (h3 : crm.ult 16#32 = true) (h4 : op2.ult 8#32 = true) (h5 : rt.ult 32#32 = true) :
+    ((0xD5080000#32 ||| (op1 <<< 16) ||| (crn <<< 12) ||| (crm <<< 8) ||| (op2 <<< 5) ||| (rt <<< 0)) >>> 16) &&& 7#32 = op1 ∧
+    ((0xD5080000#32 ||| (op1 <<< 16) ||| (crn <<< 12) ||| (crm <<< 8) ||| (op2 <<< 5) ||| (rt <<< 0)) >>> 12) &&& 15#32 = crn ∧
+    ((0xD5080000#32 ||| (op1 <<< 16) ||| (crn <<< 12) ||| (crm <<< 8) ||| (op2 <<< 5) ||| (rt <<< 0)) >>> 8) &&& 15#32 = crm ∧
+    ((0xD5080000#32 ||| (op1 <<< 16) ||| (crn <<< 12) ||| (crm <<< 8) ||| (op2 <<< 5) ||| (rt <<< 0)) >>> 5) &&& 7#32 = op2 ∧
+    ((0xD5080000#32 ||| (op1 <<< 16) ||| (crn <<< 12) ||| (crm <<< 8) ||| (op2 <<< 5) ||| (rt <<< 0)) >>> 0) &&& 31#32 = rt ∧
+    (0xD5080000#32 ||| (op1 <<< 16) ||| (crn <<< 12) ||| (crm <<< 8) ||| (op2 <<< 5) ||| (rt <<< 0)) &&& 0xFFF80000#32 = 0xD5080000#32 := by
+  bv_decide
+
+/-- SYS: accepted exactly for op1, op2 < 8, CRn, CRm < 16 and Xt a valid X register (or absent = XZR), and then the word is the
+fields at their places -/
+theorem sys_accepts_facts (op1 crn crm op2 : BitVec 64) (o4 : Operand) (ws : List (BitVec 32)) (h : emitSys op1 crn crm op2 o4 = .ok ws) :
+    op1.toNat ≤ 7 ∧ crn.toNat ≤ 15 ∧ crm.toNat ≤ 15 ∧ op2.toNat ≤ 7 ∧
+    ((∃ r, o4 = .reg r ∧ r.isGp64 = true ∧ checkGpId r idZR = true ∧
+        ws = [0xD5080000#32 ||| addImm op1.toNat 16 ||| addImm crn.toNat 12 ||| addImm crm.toNat 8 ||| addImm op2.toNat 5 ||| addImm (r.id % 32) 0]) ∨
+     (o4 = .none ∧ ws = [0xD5080000#32 ||| addImm op1.toNat 16 ||| addImm crn.toNat 12 ||| addImm crm.toNat 8 ||| addImm op2.toNat 5 ||| addImm 31 0])) := by
+  unfold emitSys at h
+  split at h
+  · simp [invalidImmediate] at h
+  · rename_i hr
+    simp only [Bool.or_eq_true, decide_eq_true_eq, not_or, Nat.not_lt] at hr
+    refine ⟨by omega, by omega, by omega, by omega, ?_⟩
+    dsimp only at h
+    split at h
+    · rename_i r
+      split at h
+      · simp [invalidInstruction] at h
+      · split at h
+        · simp [invalidPhysId] at h
+        · simp only [ok1, Result.ok.injEq] at h
+          left
+          exact ⟨r, rfl, by simp_all, by simp_all, h.symm⟩
+    · simp only [ok1, Result.ok.injEq] at h
+      right; exact ⟨rfl, h.symm⟩
+    · simp [invalidInstruction] at h
+
+theorem sys_refuses_out_of_range (op1 crn crm op2 : BitVec 64) (o4 : Operand)
+    (hbad : op1.toNat > 7 ∨ crn.toNat > 15 ∨ crm.toNat > 15 ∨ op2.toNat > 7) : ∀ ws, emitSys op1 crn crm op2 o4 ≠ .ok ws := by
+  intro ws h
+  have := sys_accepts_facts op1 crn crm op2 o4 ws h
+  omega
+
+/-- MSR (immediate): the PSTATE field number op1:op2 and the 4-bit immediate -/
+theorem msrImm_arch_fields (op crm : BitVec 32) (h1 : op.ult 32#32 = true) (h2 : crm.ult 16#32 = true) :
+    ((0xD500401F#32 ||| ((op >>> 3) <<< 16) ||| (crm <<< 8) ||| ((op &&& 7#32) <<< 5)) >>> 16) &&& 7#32 = op >>> 3 ∧
+    ((0xD500401F#32 ||| ((op >>> 3) <<< 16) ||| (crm <<< 8) ||| ((op &&& 7#32) <<< 5)) >>> 8) &&& 15#32 = crm ∧
+    ((0xD500401F#32 ||| ((op >>> 3) <<< 16) ||| (crm <<< 8) ||| ((op &&& 7#32) <<< 5)) >>> 5) &&& 7#32 = op &&& 7#32 ∧
+    (0xD500401F#32 ||| ((op >>> 3) <<< 16) ||| (crm <<< 8) ||| ((op &&& 7#32) <<< 5)) &&& 0xFFF8F01F#32 = 0xD500401F#32 := by
+  bv_decide
+
+theorem msrImm_accepts_iff (op crm : BitVec 64) (ws : List (BitVec 32)) :
+    emitMsrImm op crm = .ok ws ↔
+      (op.toNat ≤ 0x1F ∧ crm.toNat ≤ 0xF ∧
+       ws = [0xD500401F#32 ||| addImm (op.toNat >>> 3) 16 ||| addImm crm.toNat 8 ||| addImm (op.toNat % 8) 5]) := by
+  unfold emitMsrImm
+  constructor
+  · intro h
+    repeat (split at h <;> try (simp [invalidImmediate] at h))
+    simp [ok1] at h
+    refine ⟨by omega, by omega, h.symm⟩
+  · rintro ⟨h1, h2, h3⟩
+    have a : ¬ op.toNat > 0x1F := by omega
+    have b : ¬ crm.toNat > 0xF := by omega
+    simp [a, b, h3, ok1]
+
+/-- AT / DC / IC / TLBI: the 15-bit operation number op1:CRn:CRm:op2 is placed at bits 19:5 unchanged, and only numbers of the
+instruction's own group (the row's verify mask / data) are accepted -/
+theorem atDcIcTlbi_accepts_facts (d : BaseAtDcIcTlbiRow) (imm : BitVec 64) (o1 : Operand) (ws : List (BitVec 32))
+    (h : emitAtDcIcTlbi d imm o1 = .ok ws) :
+    imm.toNat ≤ 0x7FFF ∧ imm.toNat &&& d.imm_verify_mask = d.imm_verify_data ∧
+    ((∃ r, o1 = .reg r ∧ r.isGp64 = true ∧ checkGpId r idZR = true ∧ ws = [0xD5080000#32 ||| addImm imm.toNat 5 ||| addReg r.id 0]) ∨
+     (o1 = .none ∧ d.mandatory_reg = 0 ∧ ws = [0xD5080000#32 ||| addImm imm.toNat 5 ||| addReg 31 0])) := by
+  unfold emitAtDcIcTlbi at h
+  cases o1 with
+  | none =>
+    simp only [] at h
+    repeat (split at h <;> try (simp [invalidInstruction, invalidImmediate] at h))
+    simp only [ok1, Result.ok.injEq] at h
+    simp_all
+    try omega
+  | reg r =>
+    simp only [] at h
+    repeat (split at h <;> try (simp [invalidInstruction, invalidImmediate, invalidPhysId] at h))
+    simp only [ok1, Result.ok.injEq] at h
+    simp_all
+    try omega
+  | imm _ _ => simp [notModelled] at h
+  | fimm _ => simp [notModelled] at h
+  | mem _ => simp [notModelled] at h
+  | abs _ => simp [notModelled] at h
+  | label => simp [notModelled] at h
+  | memLabel _ => simp [notModelled] at h
+
+theorem sysop_field (imm rt : BitVec 32) (h1 : imm.ult 0x8000#32 = true) (h2 : rt.ult 32#32 = true) :
+    ((0xD5080000#32 ||| (imm <<< 5) ||| (rt <<< 0)) >>> 5) &&& 0x3FFF#32 = imm &&& 0x3FFF#32 ∧      -- op1:CRn:CRm:op2
+    ((0xD5080000#32 ||| (imm <<< 5) ||| (rt <<< 0)) >>> 0) &&& 31#32 = rt ∧
+    (0xD5080000#32 ||| (imm <<< 5) ||| (rt <<< 0)) &&& 0xFFF00000#32 = 0xD5000000#32 := by
+  bv_decide
+
 end AsmjitVerif.C02
